@@ -1254,11 +1254,107 @@ def canonical_free_fn_paths(raw):
     return moved
 
 
+_COMMUTATIVE = ("Add", "Mul", "BitAnd", "BitOr", "BitXor")
+
+
+def canonical_operands(raw):
+    """Two spellings of the same thing get one form: (i) a commutative operation with its constant operand on the left
+    (`2 * n`, `0x0FFF_FFFF & e`) has it on the right; (ii) a two-way switch on `!c` (`if !c { A } else { B }`) is the switch on c
+    with the targets exchanged."""
+    n = 0
+    for body in raw["bodies"]:
+        nots = {}
+        ndefs = {}
+        for blk in body["blocks"]:
+            for s in blk["stmts"]:
+                if s["k"] == "Assign" and not s["p"]["proj"]:
+                    ndefs[s["p"]["l"]] = ndefs.get(s["p"]["l"], 0) + 1
+            t = blk["term"]
+            if t["k"] == "Call" and not t["dest"]["proj"]:
+                ndefs[t["dest"]["l"]] = ndefs.get(t["dest"]["l"], 0) + 1
+        sdef = {}
+        for blk in body["blocks"]:
+            for s in blk["stmts"]:
+                if s["k"] == "Assign" and not s["p"]["proj"] and ndefs.get(s["p"]["l"]) == 1:
+                    sdef[s["p"]["l"]] = s["rv"]
+
+        def base_of(op, depth=0):
+            """the named (or oldest) local an operand is a plain copy of; None when it is computed"""
+            l = op["p"]["l"]
+            if op["p"]["proj"]:
+                return l if body["locals"][l].get("name") or l <= body["arg_count"] else None
+            if body["locals"][l].get("name") or l <= body["arg_count"] or depth > 6:
+                return l
+            rv_ = sdef.get(l)
+            if rv_ is not None and rv_["k"] == "Use" and rv_["op"].get("k") in ("copy", "move"):
+                return base_of(rv_["op"], depth + 1)
+            return None
+        for blk in body["blocks"]:
+            for s in blk["stmts"]:
+                if s["k"] != "Assign":
+                    continue
+                rv = s["rv"]
+                if rv["k"] == "BinaryOp" and rv["op"].replace("WithOverflow", "") in _COMMUTATIVE and rv["l"].get("k") == "const" and rv["r"].get("k") != "const":
+                    rv["l"], rv["r"] = rv["r"], rv["l"]
+                    n += 1
+                elif rv["k"] == "BinaryOp" and rv["op"].replace("WithOverflow", "") in _COMMUTATIVE and rv["l"].get("k") in ("copy", "move") and rv["r"].get("k") in ("copy", "move"):
+                    # two variables: the one declared first comes first (`n + off` reads as `off + n` when off is the older local)
+                    bl, br = base_of(rv["l"]), base_of(rv["r"])
+                    if bl is not None and br is not None and br < bl:
+                        rv["l"], rv["r"] = rv["r"], rv["l"]
+                        n += 1
+                if rv["k"] == "UnaryOp" and rv["op"] == "Not" and not s["p"]["proj"] and ndefs.get(s["p"]["l"]) == 1 and body["locals"][s["p"]["l"]]["ty"] == "bool" and rv["x"].get("k") in ("copy", "move"):
+                    nots[s["p"]["l"]] = (blk, rv["x"])
+            t = blk["term"]
+            if t["k"] == "SwitchInt" and t.get("discr_ty") == "bool" and t["discr"].get("k") in ("copy", "move") and not t["discr"]["p"]["proj"] and len(t["targets"]) == 1 and t["targets"][0][0] == 0:
+                hit = nots.get(t["discr"]["p"]["l"])
+                # (only when the negation was computed in this very block: nothing can have changed the operand in between)
+                if hit is not None and hit[0] is blk:
+                    t["discr"] = {"k": "copy", "p": copy.deepcopy(hit[1]["p"])}
+                    t["targets"], t["otherwise"] = [[0, t["otherwise"]]], t["targets"][0][1]
+                    n += 1
+    raw["_canonical_operands"] = n
+    return n
+
+
+def skip_empty_gotos(raw):
+    """Blocks that hold nothing but a jump are stepped over: every edge into such a block leads to where it leads (whether rustc
+    puts a `bbN: goto bbM` between a test and its arm is an accident of lowering - rules that ask for the successor of an edge
+    get the block where something happens)."""
+    n = 0
+    for body in raw["bodies"]:
+        B = body["blocks"]
+
+        def final(b, seen=()):
+            blk = B[b]
+            if b != 0 and not blk["stmts"] and blk["term"]["k"] == "Goto" and not blk.get("cleanup") and b not in seen and blk["term"]["target"] != b:
+                return final(blk["term"]["target"], seen + (b,))
+            return b
+        for blk in B:
+            t = blk["term"]
+            k = t["k"]
+            if k in ("Goto", "Call", "Assert", "Drop") and isinstance(t.get("target"), int):
+                f = final(t["target"])
+                if f != t["target"]:
+                    t["target"] = f
+                    n += 1
+            elif k == "SwitchInt":
+                nt = [[v, final(tb)] for v, tb in t["targets"]]
+                no = final(t["otherwise"])
+                if nt != t["targets"] or no != t["otherwise"]:
+                    t["targets"], t["otherwise"] = nt, no
+                    n += 1
+    raw["_skipped_gotos"] = n
+    return n
+
+
 def lower_adaptors(raw):
     """Rewrite raw["bodies"] in place (idempotent: a lowered call is no longer a call).  -> number of call sites lowered"""
     if raw.get("_lowered"):
         return 0
     canonical_free_fn_paths(raw)
+    skip_empty_gotos(raw)
+    canonical_operands(raw)
     closures = {strip_generics(b["path"]): b for b in raw["bodies"] if b["kind"] == "Closure"}
     n = 0
     _INLINED.clear()
